@@ -25,6 +25,14 @@ type PropConfig struct {
 	Sweep     *struct {
 		Packages []string `json:"packages"` // package path prefixes (relative to the module) swept without annotations
 	} `json:"sweep"`
+	Bounded []struct {
+		Name      string `json:"name"`
+		TestFile  string `json:"test_file"` // relative to /verif
+		PkgDir    string `json:"pkg_dir"`   // relative to the repository
+		QuickN    int    `json:"quick_n"`
+		ThoroughN int    `json:"thorough_n"`
+		Bound     string `json:"bound"`
+	} `json:"bounded"`
 	Ground     []string `json:"ground"`
 	Notes      []string `json:"notes"`
 	NotDecided []string `json:"not_decided"`
@@ -293,7 +301,36 @@ func cmdCheck(args []string) int {
 	}
 	solveAll(results, solveOpts{quickMs: quickMs, fullMs: fullMs, workDir: work, keepFiles: *keep, parallel: par})
 
-	return report(prop, &cfg, w, results, missing, *tier, seed, t0, loadSec, genSec, *verbose, *updateBaseline)
+	var bounded []BoundedResult
+	for _, b := range cfg.Bounded {
+		n := b.QuickN
+		if *tier == "thorough" {
+			n = b.ThoroughN
+		}
+		src, err := os.ReadFile(filepath.Join(verifDir, b.TestFile))
+		if err != nil {
+			fmt.Fprintln(os.Stderr, "ENGINE-ERROR: bounded stand-in:", err)
+			return 2
+		}
+		tb := time.Now()
+		cmdline, out := runOverlayTest(w, filepath.Join(w.RepoDir, b.PkgDir), string(src), "TestVerifBounded", fmt.Sprintf("VERIF_BOUNDED_N=%d", n))
+		br := BoundedResult{Name: b.Name, Bound: fmt.Sprintf("%s (N=%d)", b.Bound, n), Command: cmdline, Seconds: time.Since(tb).Seconds()}
+		for _, ln := range strings.Split(out, "\n") {
+			ln = strings.TrimSpace(ln)
+			if strings.HasPrefix(ln, "BOUNDED-VIOLATION") {
+				br.Violations = append(br.Violations, ln)
+			}
+			if strings.HasPrefix(ln, "BOUNDED-SUMMARY") {
+				br.Summary = ln
+				fmt.Sscanf(ln, "BOUNDED-SUMMARY evaluations=%d", &br.Evaluations)
+			}
+		}
+		if br.Summary == "" {
+			br.Error = tail(out, 1500)
+		}
+		bounded = append(bounded, br)
+	}
+	return report(prop, &cfg, w, results, missing, *tier, seed, t0, loadSec, genSec, *verbose, *updateBaseline, bounded)
 }
 
 func envOr(k, d string) string {
@@ -355,4 +392,16 @@ func labelIn(text string, labels []string) bool {
 		}
 	}
 	return false
+}
+
+// BoundedResult: outcome of a bounded stand-in (exhaustive check up to a stated bound through the real code).
+type BoundedResult struct {
+	Name        string   `json:"name"`
+	Bound       string   `json:"bound"`
+	Command     string   `json:"command"`
+	Evaluations int      `json:"evaluations"`
+	Summary     string   `json:"summary"`
+	Violations  []string `json:"violations,omitempty"`
+	Error       string   `json:"error,omitempty"`
+	Seconds     float64  `json:"seconds"`
 }
